@@ -9,7 +9,7 @@ require github.com/google/safehtml v0.0.0
 replace github.com/google/safehtml => /repo
 EOM
 cp /repo/go.sum $d/
-echo "== working tree:"; (cd $d && go run . 2>&1 | head -${PROBE_LINES:-12})
+trap "" PIPE; echo "== working tree:"; (cd $d && go run . 2>&1 | head -${PROBE_LINES:-12})
 if [ -n "$(git -C /repo status --porcelain)" ]; then
   git -C /repo stash -q; echo "== HEAD:"; (cd $d && go run . 2>&1 | head -${PROBE_LINES:-12}); git -C /repo stash pop -q
 fi
